@@ -348,7 +348,8 @@ def run(tier, seed):
     rng = random.Random(seed)
     quick = tier == "quick"
     M = 4                                            # angle unit pi/4: 2*pi = 8 units, 4*pi = 16 units
-    angles = "{1, 3}" if quick else "{1, 2, 3, 6}"
+    angles = "{3}" if quick else "{1, 2, 3, 6}"
+    nw = min(8, int(os.environ.get("VERIF_TLC_WORKERS", "16")))     # two more JVMs (2 workers each) run in the background
     assumptions = [
         "angles on the lattice a*4*pi/2^M (results compared at 1e-8); the round(.,10) tolerance of the hash is not probed",
         "default.qubit, numpy interface, analytic tapes are judged; a finite-shot tape only serves as a near-duplicate",
@@ -356,7 +357,7 @@ def run(tier, seed):
     mc_threads = _mc_start()
     # ---- (1) key soundness on the model + the groups to replay
     kg = lib.run_tlc("CacheKeyGen", lib.cfg(constants={"M": M, "Angles": angles, "Full": "FALSE" if quick else "TRUE"},
-                                            invariants=["Normalised"]), lib.workdir("C05", "keygen"), timeout=3000)
+                                            invariants=["Normalised"]), lib.workdir("C05", "keygen"), timeout=3000, workers=nw)
     if kg.invariant_violated:
         raise lib.MachineryError("reference semantics produced a non-normalised state (oracle error)")
     lib.require_ok(kg, "CacheKeyGen")
@@ -391,7 +392,7 @@ def run(tier, seed):
                 chosen.append((gi, m))
             else:
                 rest.append((gi, m))
-    n_sample = 260 if quick else 600
+    n_sample = 200 if quick else 600
     rng.shuffle(rest)
     chosen += rest[:n_sample]
     # hash binding on ALL groups (one measurement type): model key classes == classes of tape.hash ?
@@ -417,7 +418,7 @@ def run(tier, seed):
         worlds.setdefault((tuple(g["keyc"]), tuple(g["resc"][m])), f"w{len(worlds)}")
     wexpr = "{" + ", ".join(world_expr(wid, k, r, tier) for (k, r), wid in worlds.items()) + "}"
     cg = lib.run_tlc_mc("CacheGen", {"Worlds": wexpr}, lib.workdir("C05", "gen"), constraints=["Emit"],
-                        invariants=["Bounded", "UniqueKeys", "EmittedAreMisses"], timeout=3000)
+                        invariants=["Bounded", "UniqueKeys", "EmittedAreMisses"], timeout=3000, workers=nw)
     if cg.invariant_violated:
         raise lib.MachineryError(f"Cache.tla violates its structural invariant {cg.invariant_violated}")
     lib.require_ok(cg, "CacheGen")
@@ -492,7 +493,7 @@ def run(tier, seed):
     wd = lib.workdir("C05", "trace")
     (wd / "traces.json").write_text(json.dumps(traces))
     tr = lib.run_tlc("Trace_Cache", lib.cfg(init="TInit", next_="TNext", constants={"NTRACES": len(traces), "Worlds": "{}"}), wd,
-                     env={"TRACE_FILE": str(wd / "traces.json")}, timeout=3000)
+                     env={"TRACE_FILE": str(wd / "traces.json")}, timeout=3000, workers=nw)
     lib.require_ok(tr, "Trace_Cache")
     _dbg(f"trace validation {tr.wall_s:.1f}s states={tr.distinct}")
     verd = {t[1] - 1: (t[2], t[3]) for t in tr.tuples if t[0] == "V"}
